@@ -897,6 +897,13 @@ func (tr *trans) appendCall(v ssa.Value, c *ssa.CallCommon, st State, pos token.
 	// old element carries over to its place in the result (E-matching needs the new term to exist). The index
 	// forms are chosen so that they cancel against the axioms above (no matching loop).
 	An := tr.getState(st, h)
+	if isConst && k <= 4 {
+		// name the appended elements in the result
+		nv := tr.vals[v]
+		for j := int64(0); j < k; j++ {
+			tr.vc.assume(eq(sel(sel(An, "(sarr "+nv+")"), app("+", "(soff "+nv+")", ln, num(j))), elemAt(num(j))))
+		}
+	}
 	inR := fmt.Sprintf("(and (<= (soff %s) jj) (< jj (+ (soff %s) %s)))", s, s, ln)
 	tr.vc.assume(fmt.Sprintf("(forall ((jj Int)) (! (=> (and %s %s) (= (select (select %s (sarr %s)) jj) (select (select %s (sarr %s)) jj))) :pattern ((select (select %s (sarr %s)) jj))))", fits, inR, An, s, A, s, A, s))
 	tr.vc.assume(fmt.Sprintf("(forall ((jj Int)) (! (=> (and (not %s) %s) (= (select %s (- jj (soff %s))) (select (select %s (sarr %s)) jj))) :pattern ((select (select %s (sarr %s)) jj))))", fits, inR, freshArr, s, A, s, A, s))
